@@ -2,7 +2,7 @@
 CHECK = {'level': 'exploration',
  'rule': 'rapid-generated single chains of headers (genesis height 0/1/1000, batch size 2-6, length up to 6*batchSize+2, generators '
          'active/standby/removed, maxHeightGenerated honest/0/h-1/>=h/random, aggregate commits, legal parameter changes incl. no-ops) replayed '
-         'through the real liskbft module and a height-indexed LIP-0058 model, compared after every header; plus SetBFTParameters validation cases '
+         'through the real liskbft module and a height-indexed LIP-0058 model, compared after every header; before a fifth of the steps the module under test takes a detour (1-3 headers of an abandoned branch, half of them with a parameter change, then its store is rolled back) which the model and the twin never see; plus SetBFTParameters validation cases '
          'and fault-free round-robin runs with the two-quorum finality bound. Non-trivial = chain longer than the 3*batchSize window with at least '
          'one of {effective parameter change, validator joined/left, header with maxHeightGenerated>=height, certified height advanced}; round-robin '
          'runs longer than the window; rejected parameter sets. Distinct by digest of the full step list',
